@@ -255,10 +255,16 @@ class Merger(object):
             'template_feature_ind.npy',
         ]
 
+        # pc_feature_ind contains channel indices: offset by the number of channels of the
+        # previous probes.
+        n_channels_l = [len(arr) for arr in _load_multiple_files('channel_map.npy', self.subdirs)]
+        offsets_l = {
+            'pc_feature_ind.npy': [sum(n_channels_l[:i]) for i in range(len(self.subdirs))],
+            'template_feature_ind.npy': self.channel_offsets,
+        }
         for fn in template_data:
             arrays = _load_multiple_files(fn, self.subdirs)
-            # For ind arrays, we need to take into account the channel offset.
-            for array, offset in zip(arrays, self.channel_offsets):
+            for array, offset in zip(arrays, offsets_l[fn]):
                 array += offset
             concat = _concat(arrays, axis=0).astype(np.uint32)
             self._save(fn, concat)
